@@ -720,3 +720,36 @@ impl Client {
         }
     }
 }
+
+/// Read-only snapshot of a client's internal state (verification builds only).
+#[cfg(uflow_verif)]
+#[derive(Clone, Debug, PartialEq)]
+pub struct ClientProbe {
+    /// 0 = pending, 1 = active, 2 = closing, 3 = closed, 4 = fin
+    pub state: u8,
+    pub hc: Option<crate::verif::HcProbe>,
+    pub timeout_time_ms: Option<u64>,
+    pub local_nonce: Option<u32>,
+    pub now_ms: u64,
+}
+
+#[cfg(uflow_verif)]
+#[allow(missing_docs)]
+impl Client {
+    pub fn verif_probe(&self) -> ClientProbe {
+        let now_ms = self.now_ms();
+        match self.state {
+            State::Pending(ref state) => ClientProbe { state: 0, hc: None, timeout_time_ms: None, local_nonce: Some(state.local_nonce), now_ms },
+            State::Active(ref state) => ClientProbe {
+                state: 1,
+                hc: Some(state.half_connection.verif_probe()),
+                timeout_time_ms: Some(state.timeout_time_ms),
+                local_nonce: Some(state.local_nonce),
+                now_ms,
+            },
+            State::Closing(_) => ClientProbe { state: 2, hc: None, timeout_time_ms: None, local_nonce: None, now_ms },
+            State::Closed(_) => ClientProbe { state: 3, hc: None, timeout_time_ms: None, local_nonce: None, now_ms },
+            State::Fin => ClientProbe { state: 4, hc: None, timeout_time_ms: None, local_nonce: None, now_ms },
+        }
+    }
+}
